@@ -9,9 +9,11 @@ import (
 // uses to remember the acceptance order across a restart (today a counter that continues from the
 // highest pending record and starts over only when a process starts on an empty queue) never gets
 // far from its start value. A long history keeps at least one batch pending at every restart and
-// crash, so that one "queue life" spans the whole history: hundreds (quick) to more than a hundred
-// thousand (thorough) accepted batches, with clean restarts and crashes at seeded points while
-// several batches are pending. The oracle is the same plain bounded FIFO / exactly-once model at
+// crash, so that one "queue life" spans the whole history: 150-450 accepted batches, a few
+// histories with more than 12300 and, in the thorough tier, some with more than 66000 (longLengths),
+// with clean restarts and crashes at seeded points while several batches are pending. The
+// operations are generated while the history is executed (judgeGen): the generator steers by the
+// model's set of possible states, which the observations keep small. The oracle is the same plain bounded FIFO / exactly-once model at
 // the sequencer's interface (no predicted deviation is forked: tolerate=false in Judge); only the
 // workload differs.
 //
